@@ -131,7 +131,7 @@ CHECKS = {
         RUNNER_NOTE, "DESIGN.md §4 C14",
     ),
     "C15": (
-        "Coq proof (non-interference: runs in two worlds that differ only in which hook invocations raise are equal, by induction over the loop) tied by in-Coq full-trace correspondence with fault injection at every hook invocation index, plus silent-twin comparison on the implementation",
+        "Coq proof (non-interference: runs in two worlds that differ only in which hook invocations raise are equal, by induction over the loop) tied by in-Coq full-trace correspondence with fault injection at every hook invocation index, plus silent-twin comparison on the implementation; the retry loop is additionally tied by translation on every run: _RetryState._handle_failure = Runner.handle_failure (PyIRF.v), the sleep protocol of retry_helpers.py = Runner.backoff (PyIRS.v), the loop bodies of sync_core.py / async_core.py iterated = Runner.run (PyIRL.v)",
         "Theorems C15_* (same trace, delivery and final state incl. shared budget whatever on_metric / on_log / before_sleep "
         "invocations raise; the emission to the other sink and the timeline does not depend on the world) for the Gallina model, in "
         "which every hook call site goes through `guarded`; that the code guards every site is what the correspondence checks. "
